@@ -10,7 +10,11 @@ import (
 // is no such site (the enumeration of sites is then complete).
 
 var SemanticEdits = []string{"rename-call", "change-literal", "add-stage-in", "add-stage-out", "retype-param",
-	"toggle-split", "retarget-return", "change-disabled", "remove-disabled", "add-disabled", "change-top-arg"}
+	"toggle-split", "retarget-return", "change-disabled", "remove-disabled", "add-disabled", "change-top-arg",
+	// declared type of an output nothing refers to (the program keeps compiling)
+	"retype-out-array", "retype-out-map", "retype-out-base", "retype-out-mapelem-array", "retype-out-dim2",
+	// declared type of a pipeline input whose every use is a pass-through to a same-typed retyped chain is not attempted
+	"rename-param-out"}
 
 // UnspecifiedEdits: whether they change the meaning is not decided by the
 // statement of C15 (calling a different stage with an identical signature
@@ -186,6 +190,55 @@ func ApplyEdit(p *Program, kind string, site int) bool {
 				}
 			}
 		}
+	case "retype-out-array", "retype-out-map", "retype-out-base", "retype-out-mapelem-array", "retype-out-dim2", "rename-param-out":
+		for _, s := range p.Stages {
+			if !stageCalled(p, s.Name) {
+				continue
+			}
+			for i := range s.Outs {
+				if outReferenced(p, s.Name, s.Outs[i].Name) {
+					continue
+				}
+				t := s.Outs[i].T
+				var nt *T
+				switch kind {
+				case "retype-out-array":
+					nt = ArrayOf(t)
+				case "retype-out-map":
+					if t.K != TTMap && t.K != TMap && !(t.K == TArray && elemBase(t).K == TTMap) {
+						nt = TMapOf(t)
+					}
+				case "retype-out-base":
+					switch t.K {
+					case TInt:
+						nt = StringT
+					case TString, TBool, TFloat:
+						nt = IntT
+					}
+				case "retype-out-mapelem-array":
+					if t.K == TTMap && t.Elem.K != TTMap {
+						nt = TMapOf(ArrayOf(t.Elem))
+					}
+				case "retype-out-dim2":
+					if t.K == TArray {
+						nt = ArrayOf(t)
+					}
+				case "rename-param-out":
+					if hit() {
+						s.Outs[i].Name += "_renamed"
+						return true
+					}
+					continue
+				}
+				if nt == nil || !nt.Valid() {
+					continue
+				}
+				if hit() {
+					s.Outs[i].T = nt
+					return true
+				}
+			}
+		}
 	case "toggle-split":
 		for _, s := range p.Stages {
 			if !stageCalled(p, s.Name) {
@@ -343,6 +396,70 @@ func renameFt(t *T, old, nw string) *T {
 		return TMapOf(renameFt(t.Elem, old, nw))
 	}
 	return t
+}
+
+func elemBase(t *T) *T {
+	for t.K == TArray {
+		t = t.Elem
+	}
+	return t
+}
+
+// outReferenced: does any expression of the program refer to output out of a
+// call of stage name (or to the call as a whole)?
+func outReferenced(p *Program, name, out string) bool {
+	found := false
+	for _, pl := range p.Pipelines {
+		ids := map[string]bool{}
+		for _, c := range pl.Calls {
+			if c.Callee == name {
+				ids[c.Id()] = true
+			}
+		}
+		if len(ids) == 0 {
+			continue
+		}
+		check := func(e *Exp) {
+			walkExps(e, func(x *Exp) {
+				if x.K == ERefCall && ids[x.Id] {
+					first := x.Path
+					if i := strings.Index(first, "."); i >= 0 {
+						first = first[:i]
+					}
+					if first == "" || first == out {
+						found = true
+					}
+				}
+			})
+		}
+		for _, c := range pl.Calls {
+			for _, b := range c.Binds {
+				if b.Name == "*" {
+					found = true
+				}
+				check(b.E)
+			}
+			check(c.Disabled)
+		}
+		for _, b := range pl.Ret {
+			if b.Name == "*" {
+				found = true
+			}
+			check(b.E)
+		}
+		for _, r := range pl.Retain {
+			check(r)
+		}
+	}
+	// stage-level retain of the output
+	if st := p.Stage(name); st != nil {
+		for _, r := range st.Retain {
+			if r == out {
+				found = true
+			}
+		}
+	}
+	return found
 }
 
 func stageCalled(p *Program, name string) bool {
